@@ -6,6 +6,7 @@ import (
 	"sync/atomic"
 
 	"github.com/aperturerobotics/util/broadcast"
+	"github.com/aperturerobotics/util/verifhook"
 	"github.com/pkg/errors"
 )
 
@@ -63,6 +64,7 @@ func (m *Mutex) Lock(ctx context.Context) (func(), error) {
 
 	// slow path: watch for changes
 	for {
+		verifhook.Point(verifhook.MutexBlock, m)
 		select {
 		case <-ctx.Done():
 			release()
